@@ -21,6 +21,7 @@ namespace gx
         ACC = 'a',   // stateful: out = sum of a's ticks
         SUML = 'l',  // to_tsl(a,b) structural source read by a TSL reader node: out = sum (i+2)*elem over valid elems
         SUMB = 'b',  // to_tsb(a,b) structural source read by a TSB reader node
+        SUM3 = 'L',  // to_tsl(a,b,c): a three-element structural source (adjacent elements may come from ONE producer)
         ITE = 'i',   // stdlib::if_then_else(c, a, b) (REF output) — consumers read through the reference
         NEST = 'n',  // nested_<GxSub>(a, b, body)
         INL = 'm',   // wire<GxSub>(a, b, body)   (inlined)
@@ -51,7 +52,7 @@ namespace gx
             case SRC: case BSRC: case TICK: case USRC: return 0;
             case F1: case ACC: case ARG: return 1;
             case F2: case SUML: case SUMB: case NEST: case INL: return 2;
-            case ITE: case F3: return 3;
+            case ITE: case F3: case SUM3: return 3;
         }
         return 0;
     }
@@ -260,6 +261,26 @@ namespace gx
             out.set(Int{s});
         }
     };
+    using Triple = TSL<TS<Int>, 3>;
+    struct NSum3
+    {
+        static constexpr auto name = "gx_sum3";
+        static void eval(In<"l", Triple> l, Scalar<"id", Int> id, DateTime now, Out<TS<Int>> out)
+        {
+            Rec r; r.id = id.value(); r.t = rel(now); r.n = 3;
+            long s = 0;
+            for (int i = 0; i < 3; ++i)
+            {
+                auto e = l[static_cast<std::size_t>(i)];
+                r.valid[i] = e.valid(); r.mod[i] = e.modified();
+                r.v[i] = r.valid[i] ? static_cast<long>(e.value()) : 0;
+                if (r.valid[i]) s += (i + 2) * r.v[i];
+            }
+            r.out = s;
+            push(r);
+            out.set(Int{s});
+        }
+    };
     struct NSumB
     {
         static constexpr auto name = "gx_sumb";
@@ -412,6 +433,7 @@ namespace gx
                 case ACC: slot.ip = wire<NAcc>(c.w, ip(0), id); break;
                 case SUML: slot.ip = wire<NSumL>(c.w, stdlib::to_tsl<Pair>(c.w, int_port(s.in[0]), int_port(s.in[1])).template as<Pair>(), id); break;
                 case SUMB: slot.ip = wire<NSumB>(c.w, stdlib::to_tsb<PairB>(c.w, int_port(s.in[0]), int_port(s.in[1])), id); break;
+                case SUM3: slot.ip = wire<NSum3>(c.w, stdlib::to_tsl<Triple>(c.w, int_port(s.in[0]), int_port(s.in[1]), int_port(s.in[2])).template as<Triple>(), id); break;
                 case ITE: slot.ip = wire<stdlib::if_then_else>(c.w, bool_port(s.in[0]), int_port(s.in[1]), int_port(s.in[2])).template as<TS<Int>>(); break;
                 case NEST: slot.ip = nested_<GxSub>(c.w, int_port(s.in[0]), int_port(s.in[1]), Int{s.k}, Int{id * 100}); break;
                 case INL: slot.ip = wire<GxSub>(c.w, int_port(s.in[0]), int_port(s.in[1]), Int{s.k}, Int{id * 100}); break;
@@ -628,6 +650,18 @@ namespace gx
                         const long w0 = s.kind == SUML ? 2 : 5;
                         Rec rc; rc.id = id; rc.t = t; rc.n = 2; rec_in(rc, 0, x); rec_in(rc, 1, y);
                         rc.out = (x.valid ? w0 * x.v : 0) + (y.valid ? (w0 + 1) * y.v : 0);
+                        out.push_back(rc);
+                        r.valid = true; r.mod = true; r.v = rc.out;
+                    }
+                    break;
+                }
+                case SUM3:
+                {
+                    RIn x = in_of(s.in[0]), y = in_of(s.in[1]), z = in_of(s.in[2]);
+                    if ((x.mod && x.valid) || (y.mod && y.valid) || (z.mod && z.valid))
+                    {
+                        Rec rc; rc.id = id; rc.t = t; rc.n = 3; rec_in(rc, 0, x); rec_in(rc, 1, y); rec_in(rc, 2, z);
+                        rc.out = (x.valid ? 2 * x.v : 0) + (y.valid ? 3 * y.v : 0) + (z.valid ? 4 * z.v : 0);
                         out.push_back(rc);
                         r.valid = true; r.mod = true; r.v = rc.out;
                     }
